@@ -129,7 +129,10 @@ Inductive call :=
 | CFallback (n : nid) (arg : val) (e : err)
 | CPost (n : nid) (st : val) (p x : val)
 | CBPost (n : nid) (st : val) (items results : list val)
-| CWait (n : nid) (item : nat) (k : nat).   (* pseudo-call: the wait before attempt k *)
+| CWait (n : nid) (item : nat) (k : nat)    (* pseudo-call: the wait before attempt k *)
+| CPark (n : nid) (calls : list nat).       (* pseudo-call of gated concurrent batches: the system is
+                                               quiescent with exactly these exec calls in flight
+                                               (16 * item index + attempt, ascending) *)
 
 Inductive resp :=
 | ROk (v : val)
@@ -153,7 +156,7 @@ Definition emit (o : oracle) (s : ms) (c : call) : ms * resp :=
 
 Definition call_node (c : call) : nid :=
   match c with
-  | CPrep n _ | CExec n _ | CFallback n _ _ | CPost n _ _ _ | CBPost n _ _ _ | CWait n _ _ => n
+  | CPrep n _ | CExec n _ | CFallback n _ _ | CPost n _ _ _ | CBPost n _ _ _ | CWait n _ _ | CPark n _ => n
   end.
 Definition is_wait (c : call) : bool := match c with CWait _ _ _ => true | _ => false end.
 
@@ -173,6 +176,7 @@ Definition call_eqb (a b : call) : bool :=
   | CBPost n s i r, CBPost m t j q =>
       Nat.eqb n m && val_eqb s t && list_eqb val_eqb i j && list_eqb val_eqb r q
   | CWait n i k, CWait m j l => Nat.eqb n m && Nat.eqb i j && Nat.eqb k l
+  | CPark n l, CPark m l' => Nat.eqb n m && list_eqb Nat.eqb l l'
   | _, _ => false
   end.
 Definition event_eqb (a b : event) : bool :=
